@@ -511,10 +511,19 @@ func ruleWireListing(w *World, r *RuleResult) {
 		legacy, known := legacyOf(p)
 		for i := range p.Events {
 			e := &p.Events[i]
-			if e.Kind != "call" || e.Callee == nil || fnKey(e.Callee) != "fmt.Sprintf" || len(e.Args) != 2 {
+			if e.Kind != "call" || e.Callee == nil {
 				continue
 			}
-			els := elementsOf(p, e.Args[1])
+			var va *T // the values formatted into one listing line
+			switch {
+			case fnKey(e.Callee) == "fmt.Sprintf" && len(e.Args) == 2:
+				va = e.Args[1]
+			case fnKey(e.Callee) == "fmt.Fprintf" && len(e.Args) == 3 && e.Args[0].Op == "iface" && isTextBuilder(e.Args[0].A[0].Ty):
+				va = e.Args[2] // formatted straight into the text being built
+			default:
+				continue
+			}
+			els := elementsOf(p, va)
 			if len(els) != 7 {
 				d.add(false, "line/arity", c.posOf(e), "", fmt.Sprintf("a listing line is formatted from %d values; expected label, opcode, modifier, A-mode, A, B-mode, B", len(els)))
 				continue
@@ -947,14 +956,43 @@ func ruleWireTally(w *World, r *RuleResult) {
 	names := map[string]string{}
 	roles := []string{"win1", "tie1", "win2", "tie2"}
 	k := 0
+	// a counter is a loop-carried variable of the rounds loop or a field of storage main owns
+	counterKey := func(x *T) string {
+		if x == nil {
+			return ""
+		}
+		if x.Op == "loopvar" {
+			return "phi:" + x.S
+		}
+		root := x
+		for root.Op == "sel" {
+			root = root.A[0]
+		}
+		if x.Op == "sel" && (root.Op == "new" || root.Op == "alloc") {
+			return "mem:" + stripEpoch(x).Key()
+		}
+		return ""
+	}
 	for _, row := range printed {
 		for _, x := range row {
-			if x == nil || x.Op != "loopvar" {
+			ck := counterKey(x)
+			if ck == "" {
 				r.bad("print/"+roles[k], pos, "result value "+fmt.Sprint(k+1)+" is not one of the round-loop counters")
 				return
 			}
-			names[x.S] = roles[k]
+			names[ck] = roles[k]
 			k++
+		}
+	}
+	// the rounds loop: the one bounded by -r
+	roundsHdr := int64(-1)
+	for _, p := range paths {
+		for _, cd := range p.Conds {
+			if a := cd.Atom; a.Op == "lt" && a.A[0].Op == "loopvar" {
+				if f, ok := flagOf(a.A[1]); ok && f == "r" {
+					roundsHdr = a.A[0].C
+				}
+			}
 		}
 	}
 	r.ok("print/order", pos, "first line (win, tie) of warrior 1, second line (win, tie) of warrior 2")
@@ -973,9 +1011,9 @@ func ruleWireTally(w *World, r *RuleResult) {
 			}
 		}
 		inc := map[string]int64{}
-		isRounds := false
+		isRounds := last.Res.C == roundsHdr
 		for i, ph := range phis {
-			if ro, ok := names[ph.Comment]; ok && i < len(last.Args) {
+			if ro, ok := names["phi:"+ph.Comment]; ok && i < len(last.Args) {
 				isRounds = true
 				l := linearOf(last.Args[i])
 				dl := l.Const
@@ -987,6 +1025,21 @@ func ruleWireTally(w *World, r *RuleResult) {
 		}
 		if !isRounds {
 			continue
+		}
+		// counters kept in memory: what this iteration's stores add to them
+		for i := range p.Events {
+			e := &p.Events[i]
+			if e.Kind != "store" || e.LV.Op != "sel" {
+				continue
+			}
+			if ro, ok := names["mem:"+stripEpoch(e.LV).Key()]; ok {
+				l := linearOf(e.Val)
+				if len(l.Coef) != 1 {
+					inc[ro] = 99
+				} else {
+					inc[ro] += l.Const
+				}
+			}
 		}
 		// aliveness of warrior 1 / 2 on this path
 		alive := map[int][]bool{}
@@ -1022,6 +1075,12 @@ func ruleWireTally(w *World, r *RuleResult) {
 				val[wh] = x
 			}
 		}
+		// "there is no second warrior" (w2 == nil) counts as the second warrior not being alive
+		if val[2] == -1 && hasCond(p, func(a *T, v bool) bool {
+			return a.Op == "eq" && v && a.A[1].Op == "nil" && strings.Contains(a.A[0].Show(), "AddWarrior") && strings.Contains(a.A[0].Show(), "[1]")
+		}) {
+			val[2] = 0
+		}
 		if len(alive[0]) > 0 {
 			d.add(false, "alive/receiver", pos, "", "an Alive() test is made on a value that is neither the first nor the second warrior added")
 			continue
@@ -1033,7 +1092,8 @@ func ruleWireTally(w *World, r *RuleResult) {
 			continue // infeasible: the same warrior both alive and dead
 		}
 		single := hasCond(p, func(a *T, v bool) bool {
-			return a.Op == "eq" && v && a.A[1].IsConstVal(1) && a.A[0].Op == "len"
+			return (a.Op == "eq" && v && a.A[1].IsConstVal(1) && a.A[0].Op == "len") ||
+				(a.Op == "lt" && !v && a.A[0].IsConstVal(1) && a.A[1].Op == "len") // !(1 < len(warriors))
 		})
 		want := map[string]int64{"win1": 0, "tie1": 0, "win2": 0, "tie2": 0}
 		row := ""
